@@ -828,6 +828,65 @@ pub fn run_c19(run: &Run) {
     for st in res {
         run.add_counts(0, st, st, st);
     }
+    // nodes created directly through the public `Bdd::node`, with every label over every pair of existing handles (also
+    // labels that do not respect the variable order: a mirror copies what it is sent): all placements of <= 1 poll
+    {
+        let mut raw: Vec<Program> = vec![];
+        for base in progs.iter().take(if quick { 8 } else { 30 }) {
+            let mut b = Bdd::new();
+            run_program(&mut b, base);
+            let len = b.nodes.len();
+            for v in 0..3u8 {
+                for lo in 0..len {
+                    for hi in 0..len {
+                        if lo != hi {
+                            let mut ops = base.ops.clone();
+                            ops.push(Op::RawNode(v, lo as u16, hi as u16));
+                            raw.push(Program { ops });
+                        }
+                    }
+                }
+            }
+        }
+        let res = run.par_family(
+            &format!("{} programs that end with a directly created node (every label x every pair of handles) x all placements of <= 1 poll x all handles", raw.len()),
+            raw.len() as u64,
+            || 0u64,
+            |st, k| {
+                let p = &raw[k as usize];
+                let r = guard(|| {
+                    let mut b = Bdd::new();
+                    run_program(&mut b, p);
+                    b.nodes.clone()
+                });
+                let reference = match r {
+                    Ok(x) => x,
+                    Err(m) => {
+                        run.violation("producer:panic", m, json!({"type": "stream", "program": prog_json(p), "polls": [], "threaded": false}));
+                        return;
+                    }
+                };
+                let n = reference.len() - 2;
+                for np in 0..=1 {
+                    for s in schedules(n, np) {
+                        *st += 1;
+                        match guard(|| run_schedule(p, &s, false, &reference)) {
+                            Err(m) => run.violation("stream:panic", m, json!({"type": "stream", "program": prog_json(p), "polls": s, "threaded": false})),
+                            Ok((_, found)) => {
+                                for (kind, msg) in found {
+                                    run.violation(&kind, format!("{} with polls {:?} on program {}", msg, s, prog_json(p)), json!({"type": "stream", "program": prog_json(p), "polls": s, "threaded": false}));
+                                }
+                            }
+                        }
+                    }
+                }
+            },
+            &|k| json!({"type": "stream", "program": prog_json(&raw[k as usize]), "polls": [], "threaded": false}),
+        );
+        for st in res {
+            run.add_counts(0, st, st, st);
+        }
+    }
     mirror_reuse_family(run);
     // the repair step on connected stores
     let res = run.par_family(
